@@ -258,7 +258,8 @@ func (g *g) stmt(depth int) string {
 	case 6:
 		return fmt.Sprintf("for %s := range (%s) {\n%s\n}", g.pick(locals), g.expr(1), g.stmt(depth+1))
 	case 7:
-		return fmt.Sprintf("switch %s := %s.(type) {\ncase %s:\n%s\ncase *%s:\n// %s\ndefault:\n_ = %s\n}", "v", g.pick(locals), g.q(), g.stmt(depth+1), g.q(), g.comment(), "v")
+		ind := []string{"\t\t\t\t\t\t", ""}[g.t.Draw(2)]
+		return fmt.Sprintf("switch %s := %s.(type) {\ncase %s:\n%s\ncase *%s:\n%s// %s\ndefault:\n_ = %s\n}", "v", g.pick(locals), g.q(), g.stmt(depth+1), g.q(), ind, g.comment(), "v")
 	case 8:
 		// a local that shadows a package name: must not be resolved as a qualified identifier
 		if len(g.usable) > 0 {
@@ -267,6 +268,17 @@ func (g *g) stmt(depth int) string {
 		}
 		return "_ = 0"
 	case 9:
+		// clauses without statements whose only content is a hanging comment (comm and case alike).
+		// go/printer keeps such a comment inside the clause if it was written indented and at the
+		// clause keyword's column if it was written at the margin: both are canonical.
+		ind := []string{"\t\t\t\t\t\t", "\t\t\t\t\t\t", ""}[g.t.Draw(3)]
+		switch g.t.Draw(3) {
+		case 1:
+			return fmt.Sprintf("select {\ncase %s <- %s:\n%s// %s\ncase <-%s:\n%s// %s\n%s// %s\ndefault:\n// %s\n%s(%s)\n}\nswitch {\ncase %s:\n%s// %s\ndefault:\n%s()\n}",
+				g.pick(locals), g.expr(1), ind, g.comment(), g.pick(locals), ind, g.comment(), ind, g.comment(), g.comment(), g.q(), g.expr(1), g.pick(locals), ind, g.comment(), g.q())
+		case 2:
+			return fmt.Sprintf("select {\ncase <-%s:\n%s// %s\n}", g.pick(locals), ind, g.comment())
+		}
 		return fmt.Sprintf("select {\ncase %s := <-%s:\n_ = %s\n%s\ndefault:\n}", "v", g.pick(locals), "v", g.stmt(depth+1))
 	case 10:
 		return fmt.Sprintf("defer %s(%s)\n\ngo %s()", g.q(), g.expr(1), g.q())
